@@ -445,6 +445,12 @@ def extra_evidence():
             'seeded C09_m2 (_runJob_local returns a map object): kernel TaskMap -> local_kind_link fails + oracle '
             'marker-on-incomplete-save / compute-failure-swallowed on StopIteration compute faults',
             'seeded C09_m3 (temp file left by a torn write): correspondence + oracle marker-on-incomplete-save',
+            'seeded C09_m4 (lock in a contextmanager without finally): kernel fails closed + correspondence + oracle '
+            'context-unusable-after-failed-save',
+            'seeded C09_m5 (pickle existence check below the single-partition path): pickle_steps_link fails + oracle '
+            'existing-target-not-refused',
+            'seeded C09_m6 (marker named _SUCCESS<codec suffix>): kernels fail closed + correspondence + oracle '
+            'success-without-complete-output on codec-extension targets',
         ],
     }
 
